@@ -205,34 +205,37 @@ Record apath := mkP { p_dir : Z; p_base : Z }.
 Definition apath_eqb (a b : apath) : bool := (p_dir a =? p_dir b) && (p_base a =? p_base b).
 
 (* what the code reads besides the directory: config.logfile ("" by default: lg_given = false; otherwise
-   lg_path = its absolute normalised form) and the current working directory *)
+   lg_path = its absolute normalised form) and the current working directory (part of the input; since the
+   repair of FC20c it is only consulted through os.path.abspath of a given log file, i.e. through lg_path) *)
 Record env := mkEnv { lg_given : bool; lg_path : apath; cwd : apath }.
-(* os.path.abspath(config.logfile); os.path.abspath("") is the current directory *)
-Definition abspath_logfile (v : env) : apath := if lg_given v then lg_path v else cwd v.
 
 (* one directory entry, as the code can tell them apart:
    en_name      base name of the entry (identifier, see apath)
-   en_visible   matched by glob "*" (name does not start with a dot)
+   en_visible   the name does not start with a dot (only such names are matched by a glob "*...")
    en_input     the path ends with "/input"
    en_isdir     os.path.isdir
    en_region    matched by glob "*.region???.gbk" *)
 Record entry := mkE { en_id : Z; en_name : Z; en_visible : bool; en_input : bool; en_isdir : bool;
                       en_region : bool }.
-(* os.path.abspath(entry) for entry = os.path.join(name, base) as glob yields it *)
+(* os.path.abspath(entry) for entry = os.path.join(name, base) *)
 Definition entry_path (e : entry) : apath := mkP 0 (en_name e).
 
-(* _ignore_patterns: True = the entry counts as foreign content *)
+(* _ignore_patterns: True = the entry counts as foreign content.
+   `if config.logfile and os.path.abspath(entry) == os.path.abspath(config.logfile)`: without a log file
+   nothing is compared (os.path.abspath("") would be the current directory) *)
 Definition ignore_patterns (v : env) (e : entry) : bool :=
   if en_input e && en_isdir e then false
-  else if apath_eqb (entry_path e) (abspath_logfile v) then false
+  else if lg_given v && apath_eqb (entry_path e) (lg_path v) then false
   else true.
 
-(* glob.glob(os.path.join(name, pattern)): nothing matches when the directory name itself contains
-   glob metacharacters (it is then read as a pattern); "*" never matches a leading dot *)
-Definition glob_all (dmeta : bool) (entries : list entry) : list entry :=
-  if dmeta then [] else filter en_visible entries.
+(* dmeta = the directory name itself contains glob metacharacters.
+   (os.path.join(name, entry) for entry in os.listdir(name)): every entry, hidden or not, whatever the
+   directory is called *)
+Definition list_dir (dmeta : bool) (entries : list entry) : list entry := entries.
+(* glob.glob(os.path.join(glob.escape(name), "*.region???.gbk")): the directory name is escaped, so it is
+   matched literally whether or not it contains metacharacters; the pattern never matches a leading dot *)
 Definition glob_region (dmeta : bool) (entries : list entry) : list entry :=
-  if dmeta then [] else filter (fun e => en_visible e && en_region e) entries.
+  filter (fun e => en_visible e && en_region e) entries.
 
 (* for genbank in glob(...): os.remove(genbank) - on a directory os.remove raises IsADirectoryError *)
 Fixpoint remove_all (targets : list entry) (entries : list entry) : res unit * list entry :=
@@ -249,7 +252,7 @@ Definition prepare_output_directory (v : env) (kind : Z) (reuse dmeta : bool) (e
   : res unit * Z * list entry :=
   if kind =? 0 then (Ok tt, 1, [])                                      (* os.mkdir(name) *)
   else if negb (kind =? 1) then (Err E_Input, kind, entries)
-  else if negb reuse && negb (match filter (ignore_patterns v) (glob_all dmeta entries) with [] => true | _ => false end)
+  else if negb reuse && negb (match filter (ignore_patterns v) (list_dir dmeta entries) with [] => true | _ => false end)
   then (Err E_Input, kind, entries)
   else let '(r, es) := remove_all (glob_region dmeta entries) entries in (r, kind, es).
 
@@ -257,17 +260,10 @@ Definition prepare_output_directory (v : env) (kind : Z) (reuse dmeta : bool) (e
    given with --logfile (no log file was asked for when lg_given is false) *)
 Definition is_logfile (v : env) (e : entry) : bool := lg_given v && apath_eqb (entry_path e) (lg_path v).
 Definition foreign (v : env) (e : entry) : bool := negb ((en_input e && en_isdir e) || is_logfile v e).
-(* the current directory is itself an entry of the output directory while no log file was asked for *)
-Definition cwd_is_entry (v : env) (entries : list entry) : bool :=
-  negb (lg_given v) && existsb (fun e => apath_eqb (entry_path e) (cwd v)) entries.
-(* finding classes of inputs on which the code does not refuse although the property asks for it:
-   1 = a foreign entry is hidden from glob "*" (dot file), 2 = the directory name is itself a glob pattern,
-   3 = with the default empty logfile the current directory, when it is an entry, is taken for the log file *)
-Definition dir_guard (v : env) (dmeta : bool) (entries : list entry) : bool :=
-  negb dmeta && forallb en_visible entries && negb (cwd_is_entry v entries).
-Definition dir_finding_class (v : env) (dmeta : bool) (entries : list entry) : Z :=
-  if dmeta then 2 else if negb (forallb en_visible entries) then 1
-  else if cwd_is_entry v entries then 3 else 0.
+(* no guard and no finding class any more: the three classes on which the code used to accept foreign
+   content (FC20a a dot file hidden from glob "*", FC20b a directory name that is itself a glob pattern,
+   FC20c the current directory taken for the log file when none was asked for) are repaired; the spec
+   functions 13 / 14 report guard = 1, class = 0 on every input *)
 
 Definition ids (l : list entry) : list Z := map en_id l.
 Definition zlist_eqb (a b : list Z) : bool := list_eqb Z.eqb a b.
@@ -465,8 +461,7 @@ Definition run_C20 (fn : Z) (l : list Z) : list Z :=
   | 14 => match dPair dPipeInput (dPair (dPair (dPair (dPair dBool dZ) (dList dZ)) dZ) (dList dEvPair)) l with
          | Some (pl, v, kind, reuse, dmeta, es, hk, records, results, (ok0, kind', after, state', evs), []) =>
            let entries := number_entries 0 es in
-           eBool (pipeline_spec_ok v kind reuse entries records results hk ok0 kind' after state' evs)
-           ++ eBool (dir_guard v dmeta entries) ++ [dir_finding_class v dmeta entries]
+           eBool (pipeline_spec_ok v kind reuse entries records results hk ok0 kind' after state' evs) ++ [1; 0]
          | _ => bad_input end
   (* specifications evaluated on the implementation's output: payload ++ [err; state'] ++ list(states) *)
   | 11 | 12 =>
@@ -480,8 +475,7 @@ Definition run_C20 (fn : Z) (l : list Z) : list Z :=
                         (dPair (dPair dBool dZ) (dList dZ)) l with
          | Some (v, kind, reuse, dmeta, es, (err, kind', after), []) =>
            let entries := number_entries 0 es in
-           eBool (dir_spec_ok v kind reuse entries err kind' after)
-           ++ eBool (dir_guard v dmeta entries) ++ [dir_finding_class v dmeta entries]
+           eBool (dir_spec_ok v kind reuse entries err kind' after) ++ [1; 0]
          | _ => bad_input end
   | _ => bad_input
   end.
